@@ -141,9 +141,14 @@ def yearTouchesDigits (n : Numeric) : List Item → Bool
      | .numeric m _ => decide (m = n) && !stopsNumber b
      | _ => false) || yearTouchesDigits n (b :: rest)
 
+/-- a century without a two-digit year (and without the full year) is not a year -/
+def groupUsable (y q r : Bool) : Bool := !(q && !y && !r)
+
 /-- the item lists of the family, per target type -/
 def Unambiguous (is : List Item) (t : Target) : Prop :=
   (∀ it ∈ is, invertible it = true) ∧ separated is = true ∧
+  groupUsable (carries is).year (carries is).yearDiv (carries is).yearMod = true ∧
+  groupUsable (carries is).isoYear (carries is).isoYearDiv (carries is).isoYearMod = true ∧
   let c := carries is
   match t with
   | .date => fullDate c = true ∧ c.timestamp = false
@@ -230,14 +235,6 @@ def exprStamp (is : List Item) (v : Value) : Prop :=
 instance (is : List Item) (v : Value) : Decidable (exprStamp is v) := by
   unfold exprStamp; exact inferInstance
 
-/-- the value lies in the range the format's reader widths can carry -/
-def expressible (is : List Item) (v : Value) : Prop :=
-  exprYears is v ∧ exprLeap v ∧ exprOffset is v ∧ exprStamp is v
-instance (is : List Item) (v : Value) : Decidable (expressible is v) := by
-  unfold expressible; exact inferInstance
-
-/-! ### the precision a format prints -/
-
 /-- number of fraction digits the items print: 9 for `%f`, `%.f` (exact), `%.9f`, `%9f`; 6; 3; 0 -/
 def fracDigits (is : List Item) : Nat :=
   is.foldl (fun acc it => max acc (match it with
@@ -246,14 +243,40 @@ def fracDigits (is : List Item) : Nat :=
     | .fixed .nanosecond3 | .fixed .nanosecond3NoDot => 3
     | _ => 0)) 0
 
+/-- digits a fraction item prints (`%.f` prints the exact fraction) -/
+def itemFracDigits : Item → Option Nat
+  | .numeric .nanosecond _ | .fixed .nanosecond | .fixed .nanosecond9 | .fixed .nanosecond9NoDot => some 9
+  | .fixed .nanosecond6 | .fixed .nanosecond6NoDot => some 6
+  | .fixed .nanosecond3 | .fixed .nanosecond3NoDot => some 3
+  | _ => none
+
+/-- the fraction cut to `k` digits, in nanoseconds -/
+def cutFrac (frac : Int) (k : Nat) : Int :=
+  frac % 1000000000 / (10 ^ (9 - k) : Nat) * (10 ^ (9 - k) : Nat)
+
+/-- fraction items of different precision in one format all describe the same fraction (otherwise
+the reader gets contradicting nanosecond fields) -/
+def exprFrac (is : List Item) (v : Value) : Prop :=
+  onSome (shown v).2.1 fun t =>
+    ∀ it ∈ is, onSome (itemFracDigits it) fun k => cutFrac t.frac k = cutFrac t.frac (fracDigits is)
+instance (is : List Item) (v : Value) : Decidable (exprFrac is v) := by
+  unfold exprFrac; exact inferInstance
+
+/-- the value lies in the range the format's reader widths can carry -/
+def expressible (is : List Item) (v : Value) : Prop :=
+  exprYears is v ∧ exprLeap v ∧ exprOffset is v ∧ exprStamp is v ∧ exprFrac is v
+instance (is : List Item) (v : Value) : Decidable (expressible is v) := by
+  unfold expressible; exact inferInstance
+
+/-! ### the precision a format prints -/
+
 /-- a time cut to what the items print: without `%S` the second (and a leap second) is dropped;
 the fraction is cut to the printed digits; a printed leap second (`60`) is kept -/
 def truncTime (is : List Item) (t : Time) : Time :=
   let c := carries is
   if c.second = false then ⟨t.secs / 60 * 60, 0⟩
   else
-    let unit : Int := 10 ^ (9 - fracDigits is)
-    let ns := t.frac % 1000000000 / unit * unit
+    let ns := cutFrac t.frac (fracDigits is)
     ⟨t.secs, if t.frac ≥ 1000000000 then 1000000000 + ns else ns⟩
 
 /-- the value cut to the precision the format prints; `none` where the cut value does not exist
